@@ -5,18 +5,22 @@
 (*   Build{obj} ... Freeze{obj} ...   transformer A built the shared objects inside the arena and    *)
 (*                                    the arena became read-only                                     *)
 (*   Start{thread}                    a worker starts a transformation with its own transformer     *)
-(*   Write{thread,obj,locks,frames}   a store of that thread into the arena (every one is trapped)  *)
+(*   Write{thread,region,obj,locks,   a store of that thread into a frozen region (every one is       *)
+(*         atomic,site,frames}        trapped): region "arena" = the objects transformer A built,     *)
+(*                                    region "static" = libxalan-c's own .data/.bss (obj "static");   *)
+(*                                    atomic = the instruction is a LOCK-prefixed RMW / xchg           *)
 (*   Done{thread,rc,outHash,len}      the transformation's result                                   *)
 (*   Join                                                                                           *)
-(* Rejected: a store into a frozen object by a thread that holds no mutex (`locks` is the number   *)
+(* Rejected: a non-atomic store into a frozen object by a thread that holds no mutex (`locks` is the number *)
 (* of mutexes the thread holds; "some mutex is held" is taken for "the guard is held"), a result    *)
 (* that differs from the sequential one, and any event the protocol does not allow there.           *)
 EXTENDS Sharing, Sequences, TLC
 VARIABLES l, st, failed, done
 
 (* constants of Sharing for the recorded system: the arena is divided into the objects in build   *)
-(* order; "fresh" is what the shared objects' memory manager hands out after Freeze               *)
-TrObjects == {"tables", "transformer", "stylesheet", "source", "fresh"}
+(* order; "fresh" is what the shared objects' memory manager hands out after Freeze; "static" is  *)
+(* the library's static data, which every thread shares whether it wants to or not                *)
+TrObjects == {"tables", "transformer", "stylesheet", "source", "fresh", "static"}
 TrFieldsOf(o) == {"mem"}
 TrTag(o, f) == "lazy"
 TrGuard(o, f) == "some-mutex"
@@ -43,8 +47,8 @@ C07Step(s, ev) ==
     [] ev.e = "Write" ->
          IF ~CanAccess(s.running, s.built, ev.thread, ev.obj)
          THEN Res(FALSE, s, "store by a thread that runs no transformation: " \o ToString(ev))
-         ELSE Res(WriteOK(ev.obj \in s.frozen, ev.locks >= 1), s,
-                  "store into the frozen object '" \o ev.obj \o "' without a lock, thread " \o ToString(ev.thread)
+         ELSE Res((ev.region = "static") = (ev.obj = "static") /\ WriteOK(ev.obj \in s.frozen, ev.locks >= 1 \/ ev.atomic), s,
+                  "store into the frozen object '" \o ev.obj \o "' (" \o ev.region \o ") without a lock, thread " \o ToString(ev.thread)
                   \o ", at " \o ev.site \o ", called from " \o ToString(ev.frames))
     [] ev.e = "Done" ->
          IF ~CanDone(s.running, ev.thread)
